@@ -85,6 +85,25 @@ class MyIter:
 T = typing.TypeVar("T")
 class Box(typing.Generic[T]):
     def __init__(self, v: T): self.v = v
+class Page(typing.TypedDict, typing.Generic[T]):
+    items: list[T]
+class IntPage(Page[int]):
+    n: int
+class TDReq(typing.TypedDict, total=False):
+    a: typing.Required[int]
+    b: str
+class TDInh(TD, total=False):
+    y: str
+@dataclasses.dataclass
+class GDC(typing.Generic[T]):
+    v: T
+@dataclasses.dataclass(frozen=True)
+class GFDC(typing.Generic[T]):
+    v: T
+class GNT(typing.NamedTuple, typing.Generic[T]):
+    v: T
+class SubNT(NT): pass
+class GList(list[T]): pass
 '''
 
 
@@ -103,8 +122,10 @@ def catalogue():
               collections.OrderedDict, collections.Counter, types.MappingProxyType, ipaddress.IPv4Address, range, enum.Enum):
         add(c.__name__, c)
     for n in ("DC", "FDC", "SDC", "NT", "CNT", "TD", "TDN", "Plain", "Empty", "Color", "Level", "Tag", "MyStr", "MyInt", "MyList", "MyDict",
-              "MyDate", "MyTuple", "SubDC", "MyMapping", "MyIter", "Box"):
+              "MyDate", "MyTuple", "SubDC", "MyMapping", "MyIter", "Box", "Page", "IntPage", "TDReq", "TDInh", "GDC", "GFDC", "GNT",
+              "SubNT", "GList"):
         add(n, g[n])
+    add("Page[int]", g["Page"][int]); add("GDC[int]", g["GDC"][int]); add("GNT[int]", g["GNT"][int]); add("GList[int]", g["GList"][int])
     add("generator", type(x for x in ()))
     add("list_iterator", type(iter([])))
     add("dict_keys", type({}.keys()))
@@ -196,6 +217,7 @@ def facts(o):
          "hasnone": any(a is None or a is type(None) for a in args),
          "nargs": len(args), "lastellipsis": bool(args) and args[-1] is ...,
          "origin": getattr(org, "__name__", "") if org is not None else "",
+         "originsubtuple": inspect.isclass(org) and org is not tuple and issubclass(org, tuple),
          "istypeddict": typing.is_typeddict(o), "hasfields": plain and hasattr(o, "_fields"),
          "userclass": plain and getattr(o, "__module__", "") == "verif_catalogue" and not any(sub(o, b) for b in STDLIB_EXACT if b is not type(None)),
          "stdlibexact": plain and o in STDLIB_EXACT,
